@@ -111,6 +111,7 @@ structure Profile where
 inductive Outcome where
   | closed                      -- packet decode error: connection closed, no disconnect packet
   | invalidName                 -- disconnect "Your username has an invalid format."
+  | badKey                      -- disconnect invalid_public_key / invalid_public_key_signature (1.19–1.19.2 chat key)
   | success (uuid name backendName : Bytes)
       -- ServerLoginSuccess{uuid, name}; `backendName` = Username of the ServerLogin sent to the backend
   deriving DecidableEq
@@ -131,5 +132,21 @@ def offlineLogin (_forwardingNone : Bool) (override : Option Profile) (username 
   else
     let p := override.getD (newOffline username)
     .success p.id p.name p.name
+
+/-- the signed profile key a 1.19–1.19.2 client may attach to its login start packet -/
+inductive KeyState where
+  | absent | valid | expired | badSignature
+  deriving DecidableEq
+
+/-- `handleServerLogin` with the key dimension: decode, THEN the username check, THEN the key checks
+    (`Expired()`, `SetHolder`/`SignatureValid()`), then the rest of the offline path.  A valid or absent key
+    changes nothing (with `ForceKeyAuthentication` off); a bad key is refused — but only after the name was. -/
+def offlineLoginKeyed (key : KeyState) (forwardingNone : Bool) (override : Option Profile) (username : Bytes) : Outcome :=
+  match offlineLogin forwardingNone override username with
+  | .success id nm be =>
+    match key with
+    | .expired | .badSignature => .badKey
+    | _ => .success id nm be
+  | other => other
 
 end Gate.C10
